@@ -126,6 +126,13 @@ CHECKS = {
         technique="property-based mutation testing against an independent reference table (Hypothesis, atheris)",
         ref="DESIGN.md section 4 C20",
     ),
+    "C09": dict(
+        level="exploration",
+        text="Exhaustive enumeration of 2-dataset (axes = subsets of {0..4} + offsets) and 3-dataset (subsets of {0,1,2}) alignments x 6 tolerances x 3 methods x dataset orders (stratified 1/19 sample in quick, all 625 050 in thorough) plus Hypothesis-generated larger cases, against an alignment reference model written from the statement (nearest admissible target within tolerance on the permitted side, growing aligned set, AlignDatasetError iff a dataset's points collide); data values are unique so the (dataset, column) -> aligned point assignment is decoded from get_aligned_data; and optimize() level: clps identical iff aligned to the same point, reported on original coordinates, equal to the lstsq solution of exactly the stacked columns.",
+        note="Float-fragile decisions (distance within 1e-9 of the tolerance, equidistant candidates) are left open: the model returns the set of admissible outcomes. Axes strictly increasing.",
+        technique="exhaustive enumeration + property-based testing against an alignment reference model",
+        ref="DESIGN.md section 4 C09",
+    ),
 }
 
 PENDING_REASON = "check not built yet in this session (planned, see DESIGN.md section 4); nothing is claimed for it"
